@@ -464,8 +464,8 @@ theorem simE_succ {W : World} {Pg : Prog} {n : Nat} (hE : SimE W Pg n) (hSs : Si
                   obtain ⟨L2, hst2, henv2, hl2, hty2⟩ := ihb
                   refine ⟨L2, ?_, henv2, by omega, hty2⟩
                   have hj2 : W.P[pos + ca.length + 1 + cb.length]? = some (.jump (pos + ca.length + 1 + cb.length + 2)) := by
-                    have : pos + (ca.length + (0 + 1) + cb.length) = pos + ca.length + 1 + cb.length := by omega
-                    rw [← this]; exact hjmp
+                    have e : pos + (ca.length + (0 + 1) + cb.length) = pos + ca.length + 1 + cb.length := by omega
+                    rw [e] at hjmp; exact hjmp
                   exact ((hst1.snoc hstep).trans hst2).snoc (step_jump W hj2 L2 _ s2.out)
                 | sig g s' =>
                   rw [hrb] at ihb
@@ -545,8 +545,8 @@ theorem simE_succ {W : World} {Pg : Prog} {n : Nat} (hE : SimE W Pg n) (hSs : Si
                     obtain ⟨L2, hst2, henv2, hl2, hty2⟩ := ihb
                     refine ⟨L2, ?_, henv2, by omega, hty2⟩
                     have hj2 : W.P[pos + ca.length + 1 + cb.length]? = some (.jump (pos + ca.length + 1 + cb.length + 2)) := by
-                      have : pos + (ca.length + (0 + 1) + cb.length) = pos + ca.length + 1 + cb.length := by omega
-                      rw [← this]; exact hjmp
+                      have e : pos + (ca.length + (0 + 1) + cb.length) = pos + ca.length + 1 + cb.length := by omega
+                      rw [e] at hjmp; exact hjmp
                     exact ((hst1.snoc hstep).trans hst2).snoc (step_jump W hj2 L2 _ s2.out)
                   | sig g s' =>
                     rw [hrb] at ihb
@@ -562,7 +562,103 @@ theorem simE_succ {W : World} {Pg : Prog} {n : Nat} (hE : SimE W Pg n) (hSs : Si
           · simp at hc
         · simp at hc
       · exact simE_bin_strict hE op a b h1 h2 st Γ next code τ n' lc d pos L T hc hd hcode henv hwf hlen
-  | ite c t f => sorry
+  | ite c t f =>
+    simp only [compE] at hc
+    split at hc
+    · rename_i cc n1 heq1
+      split at hc
+      · simp at hc
+      · rename_i ct tt n2 heq2
+        split at hc
+        · simp at hc
+        · rename_i cf tf n3 heq3
+          split at hc
+          · rename_i htt
+            simp only [Option.some.injEq, Prod.mk.injEq] at hc
+            obtain ⟨rfl, rfl, rfl⟩ := hc
+            subst htt
+            simp only [depthSafeE, Bool.and_eq_true] at hd
+            have hm1 := compE_mono c _ _ _ _ _ heq1
+            have hm2 := compE_mono t _ _ _ _ _ heq2
+            have hm3 := compE_mono f _ _ _ _ _ heq3
+            simp only [resolveAt_append, resolveAt, List.length_append, List.length_cons, List.length_nil] at hcode
+            have hcc := codeAt_append_left (codeAt_append_left (codeAt_append_left (codeAt_append_left hcode)))
+            have hjf := codeAt_head (codeAt_append_right (codeAt_append_left (codeAt_append_left (codeAt_append_left hcode))))
+            have hct := codeAt_append_right (codeAt_append_left (codeAt_append_left hcode))
+            have hjm := codeAt_head (codeAt_append_right (codeAt_append_left hcode))
+            have hcf := codeAt_append_right hcode
+            simp only [resolveAt_length, List.length_append, List.length_cons, List.length_nil, mapT] at hjf hct hjm hcf
+            have e1 : resolveT (pos + cc.length) lc (.rel (↑ct.length + 1)) = pos + cc.length + 1 + ct.length + 1 := by
+              simp only [resolveT]; omega
+            have e2 : resolveT (pos + (cc.length + (0 + 1) + ct.length)) lc (.rel ↑cf.length)
+                = pos + cc.length + 1 + ct.length + 1 + cf.length := by
+              simp only [resolveT]; omega
+            rw [e1] at hjf
+            rw [e2] at hjm
+            have hend : pos + (cc ++ [Instr.jumpIfFalse (Target.rel (↑ct.length + 1))] ++ ct
+                ++ [Instr.jump (Target.rel ↑cf.length)] ++ cf).length = pos + cc.length + 1 + ct.length + 1 + cf.length := by
+              simp only [List.length_append, List.length_cons, List.length_nil]; omega
+            rw [hend]
+            have ihc := hE c st Γ next cc .bool n1 lc d pos L T heq1 hd.1.1 hcc henv hwf (by omega)
+            simp only [evalE]
+            cases hrc : evalE n Pg st c with
+            | ok vc s1 =>
+              rw [hrc] at ihc
+              obtain ⟨L1, hst1, henv1, hl1, hty1⟩ := ihc
+              simp only [Res.bind]
+              cases hty1 with
+              | bool x =>
+                simp only [pushed, encV] at hst1
+                have hstep := step_jumpIfFalse W hjf L1 T x s1.out
+                cases x with
+                | true =>
+                  simp only [if_true] at hstep
+                  have hct' : codeAt W.P (pos + cc.length + 1) (resolveAt (pos + cc.length + 1) lc ct) := by
+                    have e : pos + (cc.length + (0 + 1)) = pos + cc.length + 1 := by omega
+                    rw [e] at hct; exact hct
+                  have iht := hE t s1 Γ n1 ct tt n2 lc d (pos + cc.length + 1) L1 T heq2 hd.1.2 hct' henv1
+                    (hwf.mono hm1) (by omega)
+                  cases hrt : evalE n Pg s1 t with
+                  | ok vt s2 =>
+                    rw [hrt] at iht
+                    obtain ⟨L2, hst2, henv2, hl2, hty2⟩ := iht
+                    refine ⟨L2, ?_, henv2, by omega, hty2⟩
+                    have hj2 : W.P[pos + cc.length + 1 + ct.length]?
+                        = some (.jump (pos + cc.length + 1 + ct.length + 1 + cf.length)) := by
+                      have e : pos + (cc.length + (0 + 1) + ct.length) = pos + cc.length + 1 + ct.length := by omega
+                      rw [e] at hjm; exact hjm
+                    exact ((hst1.snoc hstep).trans hst2).snoc (step_jump W hj2 L2 _ s2.out)
+                  | sig g s' =>
+                    rw [hrt] at iht
+                    exact Out.sig_after (hst1.snoc hstep) hl1 iht (fun _ _ h => h) (fun h => ⟨rfl, h⟩)
+                  | timeout => trivial
+                  | stuck w => trivial
+                | false =>
+                  simp only [if_false, Bool.false_eq_true] at hstep
+                  have hcf' : codeAt W.P (pos + cc.length + 1 + ct.length + 1)
+                      (resolveAt (pos + cc.length + 1 + ct.length + 1) lc cf) := by
+                    have e : pos + (cc.length + (0 + 1) + ct.length + (0 + 1)) = pos + cc.length + 1 + ct.length + 1 := by omega
+                    rw [e] at hcf; exact hcf
+                  have ihf := hE f s1 Γ n2 cf tt n3 lc d (pos + cc.length + 1 + ct.length + 1) L1 T heq3 hd.2 hcf' henv1
+                    (hwf.mono (by omega)) (by omega)
+                  cases hrf : evalE n Pg s1 f with
+                  | ok vf s2 =>
+                    rw [hrf] at ihf
+                    obtain ⟨L2, hst2, henv2, hl2, hty2⟩ := ihf
+                    exact ⟨L2, (hst1.snoc hstep).trans hst2, henv2, by omega, hty2⟩
+                  | sig g s' =>
+                    rw [hrf] at ihf
+                    exact Out.sig_after (hst1.snoc hstep) hl1 ihf (fun _ _ h => h) (fun h => ⟨rfl, h⟩)
+                  | timeout => trivial
+                  | stuck w => trivial
+            | sig g s' =>
+              rw [hrc] at ihc
+              simp only [Res.bind]
+              exact ihc.sig_mono (fun _ _ h => h)
+            | timeout => trivial
+            | stuck w => trivial
+          · simp at hc
+    · simp at hc
   | _ => simp [compE] at hc
 
 end Abra.Compile
